@@ -24,6 +24,10 @@ struct OriginalPeer {
     sent_first: bool,
     got_p2: Option<Vec<u8>>,
     got_p1: Option<Vec<u8>>,
+    /// RTMP spec 5.2.4: packet 2 = the peer's time, then time2 (when the peer's packet 1 was
+    /// read), then the peer's random bytes.  Some(t): fill time2 in as the specification
+    /// describes; None: echo packet 1 verbatim (what librtmp does)
+    time2: Option<[u8; 4]>,
 }
 
 impl OriginalPeer {
@@ -37,7 +41,8 @@ impl OriginalPeer {
                 *b = 0;
             }
         }
-        OriginalPeer { is_client, own_p1: p1, inbuf: Vec::new(), stage: 0, sent_first: false, got_p2: None, got_p1: None }
+        let time2 = if rng.coin() { Some(*rng.pick(&[[0u8, 0, 0, 1], [0, 0, 0, 0], [0x12, 0x34, 0x56, 0x78], [0xFF, 0xFF, 0xFF, 0xFF]])) } else { None };
+        OriginalPeer { is_client, own_p1: p1, inbuf: Vec::new(), stage: 0, sent_first: false, got_p2: None, got_p1: None, time2 }
     }
     fn open(&mut self) -> Vec<u8> {
         if self.sent_first {
@@ -61,7 +66,12 @@ impl OriginalPeer {
             if !self.is_client {
                 resp.extend(self.open());
             }
-            resp.extend_from_slice(&p1); // packet 2 = echo of the peer's packet 1
+            // packet 2 = echo of the peer's packet 1, with time2 filled in by peers that do so
+            let mut p2 = p1.clone();
+            if let Some(t) = self.time2 {
+                p2[4..8].copy_from_slice(&t);
+            }
+            resp.extend_from_slice(&p2);
             self.got_p1 = Some(p1);
             self.stage = 1;
         }
@@ -74,6 +84,20 @@ impl OriginalPeer {
             return Ok((resp, true, rest));
         }
         Ok((resp, false, Vec::new()))
+    }
+}
+
+/// Packet 2 echoes packet 1: the time field and the random bytes must come back unchanged; the
+/// time2 field (bytes 4..8) is the echoing side's to fill in (RTMP spec 5.2.4), so it is only counted.
+fn echo_of(p2: Option<&[u8]>, p1: &[u8], out: &mut Out) -> bool {
+    match p2 {
+        Some(p2) if p2.len() == p1.len() && p2[..4] == p1[..4] && p2[8..] == p1[8..] => {
+            if p2[4..8] != p1[4..8] {
+                out.count("library_filled_time2_in_its_packet_2", 1);
+            }
+            true
+        }
+        _ => false,
     }
 }
 
@@ -323,14 +347,14 @@ fn run_one(rng: &mut Rng, out: &mut Out) {
     }
     // with a digest-less peer the library's packet 2 must be the echo of the peer's packet 1
     if let Party::Orig(o) = &c.party {
-        if o.got_p2.as_deref() != Some(&o.own_p1[..]) {
+        if !echo_of(o.got_p2.as_deref(), &o.own_p1, out) {
             out.violation("p2-for-digestless-p1-is-not-an-echo", json!({"library_side": "server", "history": witness(&log, &c, &s)}));
             return;
         }
         out.count("echo_checked_against_original_client", 1);
     }
     if let Party::Orig(o) = &s.party {
-        if o.got_p2.as_deref() != Some(&o.own_p1[..]) {
+        if !echo_of(o.got_p2.as_deref(), &o.own_p1, out) {
             out.violation("p2-for-digestless-p1-is-not-an-echo", json!({"library_side": "client", "history": witness(&log, &c, &s)}));
             return;
         }
@@ -363,7 +387,7 @@ impl Check for C05 {
         run_one(rng, out);
     }
     fn rule(&self) -> String {
-        "one handshake per case: library client <-> library server (3/5), library client <-> independent original-handshake server (1/5), independent original-handshake client <-> library server (1/5); four opening orders (client generates; both generate; client opens via process_bytes(&[]); server pre-generates via process_bytes(&[])); each side appends 0-4096 tagged trailing bytes right after its third packet; scheduler styles: byte-by-byte, everything available, random <= 4000, targeted (pieces ending exactly at, one before, one after stream offsets 1, 1537, 3073), mixed incl. empty deliveries; half the runs with the library RNG, half with the seeded fill hook. distinct = (peer kind, opening, scheduler style, trailing-length classes, number of deliveries ending within 1 byte of a packet boundary).".to_string()
+        "one handshake per case: library client <-> library server (3/5), library client <-> independent original-handshake server (1/5), independent original-handshake client <-> library server (1/5); the original-handshake peer echoes packet 1 verbatim or fills in time2 with {0, 1, 0x12345678, 0xFFFFFFFF} as RTMP spec 5.2.4 describes (half each); four opening orders (client generates; both generate; client opens via process_bytes(&[]); server pre-generates via process_bytes(&[])); each side appends 0-4096 tagged trailing bytes right after its third packet; scheduler styles: byte-by-byte, everything available, random <= 4000, targeted (pieces ending exactly at, one before, one after stream offsets 1, 1537, 3073), mixed incl. empty deliveries; half the runs with the library RNG, half with the seeded fill hook. distinct = (peer kind, opening, scheduler style, trailing-length classes, number of deliveries ending within 1 byte of a packet boundary).".to_string()
     }
     fn assumptions(&self) -> Vec<String> {
         vec![
